@@ -581,7 +581,9 @@ def run_check(prop, tier, seed):
         boost = thorough or lean_broken or bool(fact_fail)
         for s in cfg["suites"]:
             name, nq, nt = s[0], s[1], s[2]
-            n = nt if boost else nq
+            # a broken obligation / fact / tie widens the search for a concrete failing input; in the quick tier the
+            # widening is bounded (5x the quick budget) so that a run against a changed tree stays within minutes
+            n = nt if thorough else (min(nt, nq * 5) if boost else nq)
             seeds = [seed] if not thorough else [seed, seed * 7919 + 1, seed * 104729 + 2]
             for sd in seeds:
                 r = run_suite(name, sd, n if not thorough else max(1, n // len(seeds)), tier, os.path.join(rundir, "%s-%d" % (name, sd)))
